@@ -9,13 +9,17 @@ from vfw.runner import Stats, Violation, hyp_search
 PROPERTY = 'C05'
 LEVEL = 'exploration'
 RULE = ("histories as for C01/C02 plus non-exclusive kill / signal requests "
-        "overlapping exclusive ones, hooks, exec failures, stubborn workers "
+        "overlapping exclusive ones, hooks, exec failures (single ones, "
+        "and in a sixth of the runs a command that can never be executed, "
+        "with max_retry in {-1, 0, 1, 3}), stubborn workers "
         "and slow SIGKILLs; half of the runs use the real PeriodicCallback "
         "(check_delay 1 s) in virtual time.  After every op a read-only "
         "request (status, list, numprocesses, options, stats, numwatchers, "
-        "get, globaloptions) is sent.  Oracles: virtual time slept inside "
-        "one loop iteration <= 0.25 s and an iteration guard (no livelock); "
-        "read-only replies are on the stream before handle_message returns; "
+        "get, globaloptions) is sent.  Oracles: time spent inside one loop "
+        "iteration (virtual time slept, psutil's blocking cpu sample, 2 ms "
+        "per failed spawn) <= 0.25 s and an iteration guard (no livelock); "
+        "read-only replies are on the stream before handle_message returns "
+        "and no time passes while they are served; "
         "every accepted waiting request is answered within the model's "
         "bound; an enumerated family issues one waiting request alone on 2-4 "
         "workers that ignore the stop signal and requires the answer within "
@@ -30,7 +34,8 @@ ASSUMPTIONS = [
     "(gt_max+0.2+warmup_max) + (#watchers+1)*global_warmup + 1 s, with "
     "np_cap/gt_max the largest values ever configured, requested or "
     "overridden in the history (an upper bound for correct code)",
-    "time.sleep is the only blocking primitive observed",
+    "blocking primitives modelled: time.sleep, psutil cpu_percent(interval), "
+    "a failed fork+exec (2 ms each, counted but not added to the clock)",
 ]
 READONLY = [('status', True), ('list', True), ('numprocesses', True),
             ('options', True), ('stats', True), ('numwatchers', False),
@@ -217,10 +222,23 @@ def execute(case):
                     'C05:never-quiescent', 'operations still in progress '
                     '%.2f s after the last request' % bound()))
         if w.blocked:
+            sig = 'C05:blocked:%s' % w.blocked_where
+            # the one documented configuration that asks for unbounded
+            # retries: max_retry = -1 with a command that never executes
+            tail = k.spawn_log[-100:]
+            if len(tail) == 100 and all(r.get("failed") for r in tail) and \
+                    len(set(r["owner"] for r in tail)) == 1:
+                try:
+                    mr = w.arbiter.get_watcher(tail[-1]["owner"]).max_retry
+                except Exception:
+                    mr = None
+                if mr == -1:
+                    sig = 'C05:blocked:unbounded-spawn-retry:max_retry=-1'
             viols.append(Violation(
-                'C05:blocked:%s' % w.blocked_where,
-                'more than %.2f s of time.sleep inside one loop iteration '
-                '(in %s)' % (w.BLOCK_BOUND, w.blocked_where)))
+                sig,
+                'more than %.2f s spent inside one loop iteration (sleeps '
+                'and failed spawns at %.3f s each; in %s)' % (
+                    w.BLOCK_BOUND, w.FAILED_SPAWN_COST, w.blocked_where)))
         if w.livelock:
             viols.append(Violation('C05:livelock', 'loop iteration guard '
                                    'tripped at one virtual instant'))
@@ -231,6 +249,10 @@ def execute(case):
             classes.add('death-injected')
         if case.get("periodic"):
             classes.add('real-periodic-callback')
+        if (case.get("default_beh") or {}).get("exec_fail"):
+            classes.add('command-never-executable')
+            if any(wc.get("max_retry") == -1 for wc in case["watchers"]):
+                classes.add('command-never-executable+max_retry-1')
         if w.max_cb_slept > 0:
             classes.add('slept-in-callback')
     finally:
@@ -264,6 +286,18 @@ def _strategy():
         c = draw(base)
         if draw(st.booleans()):
             c["periodic"] = 1.0
+        # "fail to spawn": a command that can never be executed, and the
+        # documented max_retry values (-1 = retry indefinitely)
+        if draw(st.integers(0, 5)) == 0:
+            for wc in c["watchers"]:
+                if draw(st.booleans()):
+                    wc["max_retry"] = draw(st.sampled_from([-1, -1, 0, 1, 3]))
+        if draw(st.integers(0, 5)) == 0:
+            c["default_beh"] = {"react": "die", "delay": 0.0,
+                                "exec_fail": draw(st.sampled_from(
+                                    [True, True, 'value']))}
+            if draw(st.booleans()):
+                c["tape"] = c.get("tape", [])[:draw(st.integers(0, 4))]
         return c
     return case()
 
